@@ -1,0 +1,20 @@
+//go:build verif
+
+// Verification hooks for the management property (add-only; compiled only with -tags verif).
+// No behaviour of the package is changed.
+
+package mgmt
+
+// VerifRun runs the real management loop (Thread.Run) and reports how it ended: onExit(nil) when the
+// internal face was closed, onExit(v) when a handler panicked with v (in the daemon that panic is
+// unrecovered on the management goroutine and ends the process).
+func (m *Thread) VerifRun(onExit func(panicked any)) {
+	defer func() {
+		r := recover()
+		onExit(r)
+	}()
+	m.Run()
+}
+
+// VerifLocalhopEnabled reads the package switch set by Configure.
+func VerifLocalhopEnabled() bool { return enableLocalhopManagement }
